@@ -41,7 +41,36 @@ func cursorDocs(ctx context.Context, csr lungo.ICursor) ([]bson.D, error) {
 	if err := csr.All(ctx, &out); err != nil {
 		return nil, err
 	}
-	return out, nil
+	return detach(out), nil
+}
+
+// detach returns deep copies of decoded documents and then edits the decoded values in place, nested documents
+// and arrays included - as a caller is free to do with what it was handed. If a decoded value shares anything
+// with the database, the snapshot and model comparisons that follow every call see the damage.
+func detach(docs []bson.D) []bson.D {
+	out := make([]bson.D, len(docs))
+	for i, d := range docs {
+		out[i] = model.CloneD(d)
+		scribble(d)
+	}
+	return out
+}
+
+func scribble(v any) {
+	switch x := v.(type) {
+	case bson.D:
+		for i := range x {
+			scribble(x[i].Value)
+			if x[i].Key != "_id" {
+				x[i].Value = "scribbled-by-caller"
+			}
+		}
+	case bson.A:
+		for i := range x {
+			scribble(x[i])
+			x[i] = "scribbled-by-caller"
+		}
+	}
 }
 
 func singleRes(sr lungo.ISingleResult) (model.Res, error) {
@@ -53,7 +82,7 @@ func singleRes(sr lungo.ISingleResult) (model.Res, error) {
 	if err != nil {
 		return model.Res{Err: errClass(err)}, err
 	}
-	return model.Res{Docs: []bson.D{d}}, nil
+	return model.Res{Docs: detach([]bson.D{d})}, nil
 }
 
 // nonNil turns a nil document into an empty one (the driver API panics on nil filters).
@@ -342,7 +371,7 @@ func updRes(r *mongo.UpdateResult) model.Res {
 // isWrite reports whether the op kind can modify the database.
 func isWrite(k string) bool {
 	switch k {
-	case "find", "findOne", "count", "estCount", "distinct", "listIndexes", "listColls", "listDBs", "sleep":
+	case "find", "findLater", "findOne", "count", "estCount", "distinct", "listIndexes", "listColls", "listDBs", "sleep":
 		return false
 	}
 	return true
@@ -389,6 +418,8 @@ func applyModel(st *model.State, op *Op, impl *model.Res, now time.Time, lastID 
 		return st.Insert(n, docsOf(op.Docs), op.Ordered, gen)
 	case "find":
 		return st.Find(n, op.F.doc(), fo)
+	case "findLater":
+		return st.Find(n, op.F.doc(), model.FindOpts{})
 	case "findOne":
 		return st.FindOne(n, op.F.doc(), fo)
 	case "count":
